@@ -607,6 +607,14 @@ fn spawn_async_ao_list_in_task'''),
     'U4q': [
         ('owned-shell-builtin-keeps-its-control-flow', 'brush-core/src/commands.rs', "            result.map(|result| ExecutionResult::from(result.exit_code))\n", "            result\n"),
     ],
+    'U20c': [
+        ('fallback-span-runs-to-the-end-of-the-input', 'brush-interactive/src/highlighting.rs', "                global_offset..global_offset + line.len(),", "                global_offset..self.input_line.len(),"),
+        ('subpieces-offset-from-the-quoted-piece', 'brush-interactive/src/highlighting.rs', "self.highlight_word_piece(subpiece, HighlightKind::Quoted, global_offset);", "self.highlight_word_piece(subpiece, HighlightKind::Quoted, piece.start);"),
+        ('command-substitution-offset-off-by-one', 'brush-interactive/src/highlighting.rs', "self.highlight_program(command.as_str(), piece.start + 2 /* opening $( */);", "self.highlight_program(command.as_str(), piece.start + 4);"),
+        ('operator-span-uses-char-index', 'brush-interactive/src/highlighting.rs', "let end = global_offset + byte_offset(token_location.end.index);", "let end = global_offset + token_location.end.index;"),
+        ('trailing-gap-not-covered', 'brush-interactive/src/highlighting.rs', "            self.skip_ahead(global_offset + line.len());\n", ""),
+        ('piece-end-not-reached', 'brush-interactive/src/highlighting.rs', "        self.skip_ahead(piece.end);\n    }", "    }"),
+    ],
     'U16': [
         ('tilde-not-flagged-at-start', 'brush-core/src/escape.rs', "    matches!(c, '#' | '~')", "    matches!(c, '#')"),
         ('bang-not-flagged', 'brush-core/src/escape.rs', "            | '!'\n", ""),
